@@ -92,7 +92,7 @@ def run(ctx):
         "letter alone, 1-2 characters, every response type with boundary/err fields truncated at a random point, foreign codec, 8-bit garbage, "
         "long) wrapped by the repository's own WrapDnsResponse for all 8 query types) x 8 downstream codecs x 5 domains, packed/unpacked "
         "and fed to DecodeDnsResponseWithParams, QueryWithData, SendAndReceive, VersionHandshake and the probe senders through a scripted "
-        "communicator; oracle: no panic (errors are fine). REPETITION: an established session of the hostile peer's own sends one message again and again (data packets 1/5/127 ahead of the expected sequence number, cycling ahead, duplicates of a delivered packet, packets behind the sequence, options, codec and fragment probes, version requests): live heap after a collection may grow by at most 1 MiB between N and 4N repetitions (N = 8000 / 40000), no panic, and the victim completes its in-flight transfer. NEGOTIATION STEPS: the real client runs its whole Handshake() (query type given or "
+        "communicator; oracle: no panic (errors are fine). START-UP WINDOW: queries handed to handleRequest of a communicator whose listener has not registered its callback yet. REPETITION: an established session of the hostile peer's own sends one message again and again (data packets 1/5/127 ahead of the expected sequence number, cycling ahead, duplicates of a delivered packet, packets behind the sequence, options, codec and fragment probes, version requests): live heap after a collection may grow by at most 1 MiB between N and 4N repetitions (N = 8000 / 40000), no panic, and the victim completes its in-flight transfer. NEGOTIATION STEPS: the real client runs its whole Handshake() (query type given or "
         "autodetected) against the real server in memory while a man in the middle tampers with the answer to the n-th request of one command "
         "letter (n in {0,1,2,middle,last} of a faithful run's count; that one only, or all from it on): the request delivered from another source "
         "port (in-command BADIP), all sessions forgotten by the server, time-out, no records, SERVFAIL, NXDOMAIN, error records, the payload cut "
